@@ -8,7 +8,7 @@ LEVEL = 'exploration'
 BUDGET = {'quick': 100, 'thorough': 900}
 RULE = ('Cases = pool of 1-3 real persistent workers of mixed kinds x 0-6 unique inputs x extra pending 0-2 x poison inputs / '
         'worker-specific failures / SIGKILL at seeded or directed instants (e.g. inside handle_new_result / try_enqueue of the '
-        'pool) x optional refusing enqueue_fn x per-worker input callables x schedule, with retry enabled.')
+        'pool) x optional refusing enqueue_fn (optionally passing a keyword argument with some inputs only) x per-worker input callables x schedule, with retry enabled.')
 ASSUMPTIONS = ['every worker eventually answers or dies (targets terminate; killed workers are dead)']
 
 
@@ -23,7 +23,7 @@ class Run(PoolRun):
         if not self.workers:
             return
         r = self.run_pool(pool, c['inputs'])
-        exp = sorted(map(repr, [['r', x] for x in c['inputs']]))
+        exp = sorted(map(repr, [pools.expected_result(c, x) for x in c['inputs']]))
         self.res = {'status': r[0], 'n_inputs': len(c['inputs'])}
         if r[0] == 'hung':
             bl = [b for b in s.blocked_report() if b['role'].startswith('call_with_deadline')]
@@ -65,7 +65,7 @@ def plan(ctx):
     n = 2000 if ctx.tier != 'thorough' else 60000
     cases = []
     for i in range(n):
-        cases.append(pools.gen_pool_case(ctx, rng, i, 'random', retry=True, directed_late=(i % 4 == 3), double_death=(i % 8 == 2), enqueue_fn_ok=(i % 4 != 3 and i % 8 != 2)))
+        cases.append(pools.gen_pool_case(ctx, rng, i, 'random', retry=True, directed_late=(i % 4 == 3), double_death=(i % 8 == 2), enqueue_fn_ok=(i % 4 != 3 and i % 8 != 2), kw_ok=True))
         if len(cases) >= 2000:
             ctx.run(cases, 'pool-runs')
             cases = []
